@@ -141,6 +141,12 @@ def check_metrics(case, text, run, what=""):
     ntimed = sum(len(v) for v in timed.values())
     multi = any(info_["instances"] > 1 for cfg in arch.values() for info_ in cfg["components"].values())
     cl = ["einsums=%d" % len(outs), "blocks=%d" % len(blocks), "timed=%d" % ntimed]
+    for b in blocks:
+        if len(b) >= 2:
+            cl.append("fused-block")
+            comps = set(c for e in b for c in timed.get(e, []))
+            if len(comps) == 1 and sum(1 for e in b if timed.get(e)) >= 2:
+                cl.append("fused-block-single-component")
     for e in outs:
         for c in timed.get(e, []):
             cl.append("class=" + arch[cfg_of[e]]["components"][c]["cls"])
